@@ -29,10 +29,16 @@ import (
 	"github.com/PapaCharlie/go-restli/v2/cmd"
 )
 
-const (
-	v2Module = "github.com/PapaCharlie/go-restli/v2"
-	v2Dir    = "/repo/v2"
-)
+const v2Module = "github.com/PapaCharlie/go-restli/v2"
+
+// v2Dir is the runtime the generated module is type-checked against: /repo/v2, or the tree named by VERIF_REPO when the
+// checker is pointed at a scratch copy (development: restlicheck -repo).
+var v2Dir = func() string {
+	if r := os.Getenv("VERIF_REPO"); r != "" {
+		return filepath.Join(r, "v2")
+	}
+	return "/repo/v2"
+}()
 
 func main() {
 	if len(os.Args) < 3 || len(os.Args) > 4 {
